@@ -150,7 +150,7 @@ def jsonable(x):
 class SeqPlan:
     level = "exploration"
 
-    def __init__(self, prop, profiles, rigs, quick, thorough, miri_quick=0, miri_thorough=0, floor_ops=20000, what="", miri_profile=None, asan_thorough=False, miri_ops=70, miri_flags="", tsan_thorough=False):
+    def __init__(self, prop, profiles, rigs, quick, thorough, miri_quick=0, miri_thorough=0, floor_ops=20000, what="", miri_profile=None, asan_thorough=False, miri_ops=40, miri_flags="", tsan_thorough=False, extra_deser=0):
         self.prop = prop
         self.profiles = profiles
         self.rigs = rigs
@@ -165,6 +165,7 @@ class SeqPlan:
         self.miri_ops = miri_ops
         self.miri_flags = miri_flags
         self.tsan_thorough = tsan_thorough
+        self.extra_deser = extra_deser
         self.assumptions = [
             "the reference model in bvh/src/model.rs (a BTreeMap from identifier to component values) is the intended semantics of World",
             "payload components identify themselves (type tag, instance id, checksum); values written are unique per world so a read identifies the write it saw",
@@ -215,6 +216,12 @@ class SeqPlan:
                     )
                 )
                 n += 1
+        for s in range(self.extra_deser):
+            rig = ["r5", "r9", "r1"][s % 3]
+            out = os.path.join(ctx.scratch, f"deser-{rig}-{s}.json")
+            jobs.append(dict(name=f"deser-{rig}-{s}", kind="native", rig=rig,
+                             argv=[os.path.join(TARGET, "release", rig), "deser", "--seed", str(ctx.seed * 1013 + s), "--worlds", "14" if ctx.tier == "quick" else "100", "--mutants", "60", "--exhaustive", "2", "--followup", "20", "--out", out],
+                             out=out, timeout=1800))
         n_miri = 0 if NO_MIRI else (self.miri_quick if ctx.tier == "quick" else self.miri_thorough)
         mrigs = self.miri_rigs()
         for s in range(n_miri):
@@ -262,6 +269,12 @@ class SeqPlan:
             kind = job["kind"]
             tools[kind]["processes"] += 1
             rep = r["report"]
+            if rep is not None and "stats" not in rep:
+                # a hostile-input shard (deser monitor) attached to this plan
+                acc["failed_deserializations_observed"] = acc.get("failed_deserializations_observed", 0) + rep.get("outcome_err", 0)
+                acc["deser_inputs"] = acc.get("deser_inputs", 0) + rep.get("cases", 0)
+                rep = dict(rep)
+                rep["stats"] = {}
             if rep is not None:
                 merge_stats(acc, rep["stats"])
                 tools[kind]["ops"] += rep["stats"].get("ops", 0)
@@ -569,6 +582,79 @@ def save_violation_replay(prop, job, v, rep):
     return path
 
 
+class DeserPlan(ToolPlan):
+    def __init__(self, prop, **kw):
+        super().__init__(prop, ["rig_r5", "rig_r9", "rig_misc"], **kw)
+
+    def build(self, ctx):
+        ok, msg = cargo_build(self.packages, ctx.log)
+        if ok and not NO_MIRI:
+            ok, msg = miri_warm("rig_r5", "r5", ctx.log)
+        return ok, msg
+
+    def distinct(self, acc):
+        return len(acc.get("sigs_set", ()))
+
+    def jobs(self, ctx):
+        quick = ctx.tier == "quick"
+        jobs = []
+        shards = [("r5", 5), ("r9", 5), ("r1", 2)] if quick else [("r5", 8), ("r9", 8), ("r1", 4), ("r0", 1)]
+        n = 0
+        for rig, cnt in shards:
+            for s in range(cnt):
+                out = os.path.join(ctx.scratch, f"deser-{rig}-{s}.json")
+                worlds, mutants, exh = (14, 60, 2) if quick else (120, 120, 6)
+                jobs.append(dict(name=f"deser-{rig}-{s}", kind="native", rig=rig,
+                                 argv=[os.path.join(TARGET, "release", rig), "deser", "--seed", str(ctx.seed * 1009 + n), "--worlds", str(worlds), "--mutants", str(mutants), "--exhaustive", str(exh), "--followup", "30", "--out", out],
+                                 out=out, timeout=1800 if quick else 7200))
+                n += 1
+        if not NO_MIRI:
+            for s in range(2 if quick else 12):
+                out = os.path.join(ctx.scratch, f"deser-miri-{s}.json")
+                jobs.append(dict(name=f"deser-miri-{s}", kind="miri", rig="r5",
+                                 argv=["cargo", "+nightly", "miri", "run", "--offline", "-q"] + CARGO_CONFIG + ["-p", "rig_r5", "--bin", "r5", "--", "deser", "--seed", str(ctx.seed * 31 + s), "--worlds", "2", "--mutants", "6", "--exhaustive", "0", "--followup", "2", "--out", out],
+                                 env={"MIRIFLAGS": MIRIFLAGS + " -Zmiri-ignore-leaks", "CARGO_TARGET_DIR": MIRI_TARGET}, out=out, timeout=1800 if quick else 5400))
+        return jobs
+
+
+class FaultsPlan(ToolPlan):
+    def __init__(self, prop, **kw):
+        super().__init__(prop, ["rig_r5", "rig_r9", "rig_misc"], **kw)
+
+    def build(self, ctx):
+        ok, msg = cargo_build(self.packages, ctx.log)
+        if ok and not NO_MIRI:
+            ok, msg = miri_warm("rig_r5", "r5", ctx.log)
+        return ok, msg
+
+    def evaluations(self, acc):
+        return int(acc.get("cases", 0))
+
+    def distinct(self, acc):
+        return len(acc.get("sigs_set", ()))
+
+    def jobs(self, ctx):
+        quick = ctx.tier == "quick"
+        jobs = []
+        shards = [("r5", 5), ("r9", 5), ("r1", 2)] if quick else [("r5", 12), ("r9", 12), ("r1", 6)]
+        n = 0
+        for rig, cnt in shards:
+            for s in range(cnt):
+                out = os.path.join(ctx.scratch, f"faults-{rig}-{s}.json")
+                jobs.append(dict(name=f"faults-{rig}-{s}", kind="native", rig=rig,
+                                 argv=["python3", os.path.join(ROOT, "lib", "run_faults.py"), out, os.path.join(TARGET, "release", rig), "faults", "--seed", str(ctx.seed * 2003 + n), "--worlds", "3" if quick else "10", "--max-k", "64" if quick else "400"],
+                                 out=out, timeout=1800 if quick else 7200, death_is_violation=False))
+                n += 1
+        if not NO_MIRI:
+            for s in range(3 if quick else 12):
+                out = os.path.join(ctx.scratch, f"faults-miri-{s}.json")
+                skip = ";".join(["World::remove", "World::clear"] + [f"World::clone_from(dst={d})" for d in ("empty", "other", "smaller", "larger")])
+                jobs.append(dict(name=f"faults-miri-{s}", kind="miri", rig="r5",
+                                 argv=["cargo", "+nightly", "miri", "run", "--offline", "-q"] + CARGO_CONFIG + ["-p", "rig_r5", "--bin", "r5", "--", "faults", "--seed", str(ctx.seed * 37 + s), "--worlds", "1", "--max-k", "2", "--op-limit", "6", "--scene-ops", "7", "--skip", skip, "--out", out],
+                                 env={"MIRIFLAGS": MIRIFLAGS + " -Zmiri-ignore-leaks", "CARGO_TARGET_DIR": MIRI_TARGET}, out=out, timeout=1800 if quick else 5400))
+        return jobs
+
+
 class CtorPlan(ToolPlan):
     def jobs(self, ctx):
         out = os.path.join(ctx.scratch, "ctor.json")
@@ -585,7 +671,7 @@ PLANS = {
                    what="uniqueness of issued identifiers over the world's lifetime; contains/entry/Entries::entry/remove for every identifier ever issued (live, stale of any age, never issued)"),
     "C03": SeqPlan("C03", ["query"], ALL_RIGS, quick=(5, 120, 300), thorough=(8, 1500, 400), miri_quick=8, miri_thorough=32, miri_profile="query",
                    what="every result of generated query instantiations (views x filters x resource views x entry views x sub-views; next/fold/mixed iteration; size_hint before each next) vs model-side evaluation; writes through views land on that entity only"),
-    "C04": SeqPlan("C04", ["churn"], ALL_RIGS, quick=(5, 120, 300), thorough=(8, 1500, 400), miri_quick=4, miri_thorough=16, miri_profile="churn",
+    "C04": SeqPlan("C04", ["churn"], ALL_RIGS, quick=(5, 120, 300), thorough=(8, 1500, 400), miri_quick=4, miri_thorough=16, miri_profile="churn", extra_deser=3,
                    what="per-value drop ledger: after every op constructed-minus-dropped per component type equals what the worlds hold; double / unknown / early drops; everything dead after the last world is dropped"),
     "C05": SeqPlan("C05", ["mem", "general", "churn"], ["r5", "r9", "r1"], quick=(6, 100, 300), thorough=(8, 1500, 400), miri_quick=12, miri_thorough=48, miri_profile="mem", asan_thorough=True,
                    what="allocator audit (layout of every dealloc/realloc, double free, unknown free, bytes returned at end of history), self-checking payloads (tag, checksum, alignment, heap bytes), Miri (OOB, dangling, uninit, invalid value, layout, leak), ASan/LSan in thorough"),
@@ -596,10 +682,24 @@ PLANS = {
                         "each entity once, no two results sharing a mutably viewed address, writes land on that entity only; same code under Miri's data-race detector"),
     "C10": SeqPlan("C10", ["clone"], ALL_RIGS, quick=(5, 120, 300), thorough=(8, 1500, 400), miri_quick=4, miri_thorough=16, miri_profile="clone",
                    what="clone()/clone_from() between independently grown worlds: equality, per-table content, no shared allocation, then divergent histories on both sides with every other oracle on"),
+    "C11": DeserPlan("C11", floor=5000,
+                     what="mutated serializations (serde_json text; serde_assert tokens readable + compact) of worlds grown by the history generator: 1-3 random structural mutations per input, plus every single-token/element deletion, duplication "
+                          "and numeric alteration of small worlds; oracle: no panic inside brood, no sink event, Ok worlds pass the structural audit, resolve ids one-to-one and survive a 30-op follow-up history under all sequential oracles",
+                     rule="a case is one input handed to Deserialize; distinct = distinct (carrier, mutation kinds applied, outcome class incl. normalised error message); non-trivial = every case (the unmutated identity inputs are a control and are counted under their own class)",
+                     level="fault_enumeration",
+                     assumptions=["numbers (declared lengths, indices, generations) are capped at the input size, as the property's quantifier states", "panics raised inside the carrier crates (serde_json / serde_assert) are not attributed to brood; such inputs are discarded and counted",
+                                  "payload components validate their own checksum on Deserialize, so value corruption is rejected by the component, not by brood"]),
     "C13": SeqPlan("C13", ["general", "aba", "serde", "clone"], ALL_RIGS, quick=(6, 120, 300), thorough=(8, 1500, 400), miri_quick=0, miri_thorough=8,
                    what="structural audit of verif_dump after every op: slots<->rows bijection, free list = inactive slots, len, unique archetype per identifier, lookup tables"),
     "C15": SeqPlan("C15", ["res"], ["r5", "r9", "r1"], quick=(5, 120, 300), thorough=(8, 1500, 400), miri_quick=2, miri_thorough=8, miri_profile="res",
                    what="get/get_mut/view_resources/query resource views vs model per resource; resources unchanged by every entity op, clone, clone_from, round trip"),
+    "C17": FaultsPlan("C17", floor=2000, level="fault_enumeration",
+                      what="panic injected at every callback position k (Drop, Clone, PartialEq, Debug, Serialize, Deserialize, system / query bodies) of: remove (first/middle/last row, widest archetype), clear, Entry::add overwrite, Entry::remove, world drop, clone, "
+                           "clone_from (empty / other / smaller / larger destination), ==, Debug, serialize x3 carriers, deserialize x3 carriers, query, run_system, run_par_system, par_query; afterwards full read-only query, further ops, drop of every world; "
+                           "oracles: drop ledger, payload poison/checksum, allocator audit, process death; Miri on a sample of the operations without known findings",
+                      rule="a case is one (world, operation, k); distinct = distinct (operation, fuse fired?, panicked?) classes; all positions k are enumerated up to --max-k per operation (evenly sampled beyond)",
+                      assumptions=["leaks after a panic are allowed by the property and are not reported", "operations with a known finding are skipped in the Miri shards (Miri stops at the first report)",
+                                   "a process death is attributed to the operation of the last flushed CASE line; the shard is re-run with that operation skipped"]),
     "C18": CtorPlan("C18", ["ctor"], floor=1000, exhaustive=True,
                     what="every registry of length 2..9 with one pair of equal positions (120 types) x {new, with_resources, default, Deserialize from a valid empty-world input in json / tokens readable / tokens compact} must not return a World; "
                     "the 10 duplicate-free twins (length 0..9) must return through all six; every batch of 1..4 columns with lengths in {0,1,2,3}^n (340): Batch::new panics iff ragged, equal ones extend consistently (audit)",
